@@ -25,7 +25,9 @@ def run(ctx):
                 "baseline, every descriptor the library created was closed and none it did not create (ledger in the wrappers), UXF "
                 "socket file and control files gone, LeakSanitizer finds no unreachable heap.  FORK: established pair + server + a "
                 "connect still in progress with its timeout armed; a forked child calls xcm_cleanup on everything; the owner's "
-                "connection, server socket, socket files and connect timeout must be intact.  CTL: 0-3 control clients attached when the "
+                "connection, server socket, socket files and connect timeout must be intact.  RESOLVING: non-blocking connects whose DNS queries "
+                "(for the remote name and for a DNS name in xcm.local_addr) are kept pending by a silent name server are closed, and cleaned "
+                "up in a forked child, in mid-resolution: no descriptor and no heap block may be left.  CTL: 0-3 control clients attached when the "
                 "socket is closed.")
     uexe = life.build_unit()
     uops = life.unit_exhaustive()
@@ -49,9 +51,12 @@ def run(ctx):
     for cmd, line in res:
         life.judge(ctx, cmd, line)
     ctx.exhaustive = True
-    extra = ["FORK " + p for p in PROTOS] + ["CTL %d" % n for n in range(4)]
+    extra = ["FORK " + p for p in PROTOS] + ["CTL %d" % n for n in range(4)] + ["RESOLVING " + p for p in ("tcp", "tls", "btcp", "btls")]
     rc, out, err = sysattr.run(exe, extra, ctx, timeout=900)
     for cmd, line in zip(extra, out):
+        if cmd.startswith("RESOLVING"):
+            life.judge_resolving(ctx, cmd, line)
+            continue
         (life.judge_fork if cmd.startswith("FORK") else life.judge_ctl)(ctx, cmd, line)
     if len(out) != len(extra):
         ctx.violation("sys_life:crash:" + common.crash_site(err), "sys_life died at %r" % extra[len(out)], {"harness": "sys_life", "ops": [extra[len(out)]], "stderr": err[-2000:]})
